@@ -46,6 +46,10 @@ pub fn gen_c17(seed: u64, thorough: bool, only: Option<u64>, out: &mut Out) {
     }
     let mut r = Prng::for_case(seed, "C17", gi);
     let t = *r.pick(&[1u32, 2, 2, 3, 3, 5]);
+    // fixed groups with thresholds whose encoding uses the upper bytes (only share creation and a sub-threshold
+    // grouping are run for them)
+    let high = match gi { 3 => Some(256u32), 4 => Some(300), 5 => Some(511), _ => None };
+    let t = high.unwrap_or(t);
     let ml = *r.pick(&[0usize, 1, 4, 16, 32, 200]);
     let m = match r.below(4) {
       0 => vec![0xff, 0xfe, 0x00, 0x80][..ml.min(4)].to_vec(),
@@ -53,7 +57,7 @@ pub fn gen_c17(seed: u64, thorough: bool, only: Option<u64>, out: &mut Out) {
       _ => r.blob(ml),
     };
     let epoch = epoch_str(&mut r);
-    let n = t as usize + 1;
+    let n = if high.is_some() { 3 } else { t as usize + 1 };
     let mut shares_b64: Vec<String> = vec![];
     let mut key0 = String::new();
     for i in 0..n {
@@ -86,8 +90,17 @@ pub fn gen_c17(seed: u64, thorough: bool, only: Option<u64>, out: &mut Out) {
               if tb.len() != 32 || tb != r3[2] {
                 v = Err("tag field is not the 32-byte tag the core library derives".to_string());
               }
-              if sta_rs::Share::from_bytes(&sb).is_none() {
-                v = Err("share field does not decode to a share".to_string());
+              match sta_rs::Share::from_bytes(&sb) {
+                None => v = Err("share field does not decode to a share".to_string()),
+                Some(sh) => {
+                  // a valid share: it re-encodes to the same bytes and carries the caller's threshold
+                  if sh.to_bytes() != sb {
+                    v = Err(format!("threshold {}: the share field decodes to a share that encodes differently", t));
+                  }
+                  if sb.len() < 4 || sb[..4] != t.to_le_bytes() {
+                    v = Err(format!("threshold {}: the share field does not carry the threshold", t));
+                  }
+                }
               }
               x = share_x(&sb).unwrap_or_default();
               if i == 0 {
@@ -105,6 +118,13 @@ pub fn gen_c17(seed: u64, thorough: bool, only: Option<u64>, out: &mut Out) {
       out.case(format!("wasm.create {} {} {} {}", hex(&m), t, hex(epoch.as_bytes()), hex(&x)), hex(js.as_bytes()), v);
     }
     if shares_b64.len() < n {
+      continue;
+    }
+    if high.is_some() {
+      let ser = shares_b64.join("\n");
+      let obs = group_obs(&ser, &epoch);
+      let v = if obs == "none" { Ok(()) } else { Err(format!("three shares of a threshold-{} sharing: something was returned", t)) };
+      out.case(format!("wasm.group {} {}", hex(ser.as_bytes()), hex(epoch.as_bytes())), obs, v);
       continue;
     }
     // grouping: exactly t, a repeat early in the list, one short, wrong epoch, mixed measurement, malformed
